@@ -243,6 +243,20 @@ def dialAddrTransport (a : Multiaddr) : Option Transport :=
     else none
   | [] => none
 
+/-- The SYNCHRONOUS part of `TcpTransport::dial` (`src/transport/tcp/mod.rs`): the address is parsed
+(`TcpAddress::multiaddr_to_socket_address`); resolving, connecting and negotiating happen in the future
+the call queues. `false` = the call returns `Err` — which `dial_address` (it has set the peer `Dialing`
+by then and returns with `?` before `pending_connections.insert`) would turn into a peer that is
+`Dialing` forever. `dialAddress` below has no such branch: `Props/C05.lean`
+(`transport_dial_total_on_accepted_shapes`) proves it unreachable for every address the shape check
+lets through, and the adapter runs the real `TcpTransport::dial`/`open` behind the scripted transport,
+so a synchronous refusal added to the real code breaks the correspondence. -/
+def tcpDialSync (a : Multiaddr) : Bool := (tcpParse a).isSome
+
+/-- The synchronous part of `TcpTransport::open`: nothing is checked (every address is parsed inside
+the future), the call returns `Ok` for every list. -/
+def tcpOpenSync (_addrs : List Multiaddr) : Bool := true
+
 /-- `TransportManager::dial_address`. -/
 def dialAddress (s : Mgr) (a : Multiaddr) : Mgr × Out :=
   match s.limits.onDialAddress with
